@@ -1,7 +1,7 @@
 # recipes.py - which harnesses decide which property, with which bounds.
 # See bin/check for the meaning of the fields.
 
-MISC = ["repo:modules/iauth_misc.c", "env/misc_env.c"]
+MISC = ["repo:modules/iauth_misc.c", "env/misc_env.c", "env/libc_models.c"]
 
 RECIPES = {}
 
@@ -11,5 +11,25 @@ RECIPES["C13"] = {
         {"name": "mask", "src": ["C13_mask.c"] + MISC,
          "splits": {"all": [{}, {"BITS_BEYOND": None}]},
          "unwind": 130, "unwindset": ["irc_check_mask.0:9"]},
+    ],
+}
+
+RECIPES["C12"] = {
+    "units": ["modules/iauth_misc.c"],
+    "jobs": [
+        {"name": "ntop", "src": ["C12_ntop.c"] + MISC,
+         "splits": {"all": [{}, {"V4": None}]},
+         "unwind": 44, "timeout": 1500},
+    ],
+}
+
+CORE = ["repo:src/set.c", "repo:src/common.c", "repo:src/bitset.c", "env/core_env.c", "env/libc_models.c"]
+
+RECIPES["C19"] = {
+    "units": ["src/set.c", "src/common.c"],
+    "jobs": [
+        {"name": "cmp", "src": ["C19_cmp.c"] + CORE,
+         "splits": {"all": [{"CMP_INT": None}, {"CMP_VOIDP": None}, {"CMP_PTR": None}, {"CMP_CHARP": None}]},
+         "unwind": 6, "timeout": 300},
     ],
 }
